@@ -675,7 +675,7 @@ def _cleanup_codes(run, model: WSModel, h: Func):
     for n in hc.live_nodes():
         for c in n.calls():
             m = p.callee(h, c) if isinstance(c.func, ast.Attribute) and isinstance(c.func.value, ast.Name) and c.func.value.id == 'self' else None
-            if isinstance(m, Func) and any(isinstance(a, ast.Name) and a.id == 'ws' for a in c.args):
+            if isinstance(m, Func) and any(isinstance(a, ast.Name) and a.id == 'ws' for a in list(c.args) + [kw.value for kw in c.keywords]):
                 targets.append(m)
     if not targets:
         raise UnknownIdiom('%s: no helper receiving the socket' % h.qual)
